@@ -181,7 +181,16 @@ impl Store {
                 }
             }
         }
-        latest.into_values().map(decode).collect()
+        // The map is keyed by the id's text ("A-10" < "A-2"); the present
+        // path enumerates candidates in ascending row id, and everything
+        // order-sensitive downstream (the projection ledger, floating-point
+        // aggregates) has to see the same order in the past.
+        let mut elements = latest
+            .into_values()
+            .map(decode)
+            .collect::<Result<Vec<Element>, KipError>>()?;
+        elements.sort_by_key(|element| element.id().seq);
+        Ok(elements)
     }
 
     /// Resolves `AS OF TX :tx` to the Space sequence that transaction produced.
